@@ -6,6 +6,7 @@ pub mod c04;
 pub mod c07;
 pub mod c09;
 pub mod c13;
+pub mod c14;
 pub mod c15;
 pub mod common;
 
@@ -18,6 +19,7 @@ pub fn run(id: &str, tier: Tier, seed: u64) -> i32 {
         "C07" => c07::run(tier, seed),
         "C09" => c09::run(tier, seed),
         "C13" => c13::run(tier, seed),
+        "C14" => c14::run(tier, seed),
         "C15" => c15::run(tier, seed),
         _ => {
             eprintln!("no check for {}", id);
@@ -35,6 +37,7 @@ pub fn replay(id: &str, case: &serde_json::Value) -> CaseResult {
         "C07" => c07::replay(case),
         "C09" => c09::replay(case),
         "C13" => c13::replay(case),
+        "C14" => c14::replay(case),
         "C15" => c15::replay(case),
         _ => panic!("no check for {}", id),
     }
